@@ -108,6 +108,7 @@ func runOpsProp(r *Run, prop string) error {
 	if prop == "C01" {
 		c01Epochs(r)
 		c01RandGenomes(r)
+		c01RandEpochsNoSinglePoint(r)
 	}
 	return nil
 }
